@@ -35,7 +35,8 @@ def replay_fault(tag, rec):
             clock = observe.VirtualClock()
             r = solverplay.run_once(argv, seed=7, getters=('results', 'short', 'long'), plan=plan, durations=durs,
                                     clock=clock, values_on_fault=policy.split()[0], timeLimit=(rec['limit'] / 1e6) if rec['limit'] else None,
-                                    keep_sets=False, presolve=policy.endswith('healthy solve'))
+                                    keep_sets=False, presolve=policy.endswith('healthy solve'),
+                                    postsolve=(policy == 'stale' and not rec['limit']))
             st, S = r['construct']
             if st != 'ok':
                 cl.add('C14', 'construct', False, '%s %s' % (st, S))
@@ -44,6 +45,19 @@ def replay_fault(tag, rec):
             lim = (rec['limit'] / 1e6) if rec['limit'] else None
             seen = [e.get('timeLimit') for e in r['events']]
             cl.add('X', 'backend_receives_time_limit', all(x == lim for x in seen), 'solve(timeLimit=%r): back end saw %s' % (lim, seen))
+            if 'post_texts' in r or 'post_exc' in r:
+                # growth: a healthy solve() on the same object after the failed run presents a result again
+                okp = 'post_exc' not in r
+                det = r.get('post_exc', '')
+                if okp:
+                    for g, t in r['post_texts'].items():
+                        pp = restext.parse_results(t)
+                        want_full = rec['nF0'] > 0
+                        good = (('matching' in pp and pp.get('pulp_status') == 'Optimal') if want_full
+                                else (pp.get('pulp_status') == 'Infeasible' and 'matching' not in pp))
+                        if not good:
+                            okp, det = False, '%s(): keys %s status %s, |F0|=%d' % (g, pp['keys'], pp.get('pulp_status'), rec['nF0'])
+                cl.add('X', 'recovers_after_failed_run', okp, 'healthy solve() after the faulty run: %s' % det)
             if r['exc'] is not None:
                 # an exception is not "presenting a matching"; it is reported under C02's no-exception clause
                 cl.add('C02', 'solve_no_exception_under_faults', False, '%s (policy %s)' % (r['exc'], policy))
